@@ -63,6 +63,7 @@ type Config struct {
 	Methods   []string // methods every /r<i> path declares (default opMethods)
 	Extra     []string // further media types with a registered (recording) producer
 	NoDocs    bool     // serve through Context.RoutesHandler (no spec / docs middlewares in front)
+	Hostile   string   // "" | before-context | after-context (see Case.Hostile)
 }
 
 type modeInfo struct {
@@ -359,6 +360,9 @@ func buildEnvWith(cfg Config, doc *loads.Document, regs []opReg) *env {
 	}
 	e.api = api
 	e.doc = doc
+	if cfg.Hostile == "before-context" {
+		e.hostile()
+	}
 	e.ctx = middleware.NewContext(doc, api, nil)
 	if cfg.NoDocs {
 		e.h = e.ctx.RoutesHandler(nil)
@@ -366,7 +370,41 @@ func buildEnvWith(cfg Config, doc *loads.Document, regs []opReg) *env {
 		e.h = e.ctx.APIHandler(nil)
 	}
 	// either call also installs the default router in the context (the typed entry point needs it)
+	if cfg.Hostile != "" {
+		e.hostile()
+	}
 	return e
+}
+
+const mtHostile = "x-hostile/x"
+
+// hostile is the "hostile caller" event: the application asks the API for the producers of
+// every non-empty subset of the media types it registered a producer for (what generated
+// code and custom middleware do to encode on their own), and then treats every map it was
+// given - and every slice it passed in - as its own: all entries are replaced by a foreign
+// producer, a foreign key is added, the argument slice is overwritten. The registry of the
+// API and the routes built from it must not be affected: the judge still demands the
+// producer REGISTERED for the negotiated type (identity).
+func (e *env) hostile() {
+	types := append(append([]string(nil), e.mode.registered...), e.cfg.Extra...)
+	for mask := 1; mask < 1<<len(types); mask++ {
+		var ask []string
+		for i, t := range types {
+			if mask>>i&1 == 1 {
+				ask = append(ask, t)
+			}
+		}
+		got := e.api.ProducersFor(ask)
+		for k := range got {
+			got[k] = &recProducer{tag: "hostile-caller:" + k, e: e}
+		}
+		if got != nil {
+			got[mtHostile] = &recProducer{tag: "hostile-caller:" + mtHostile, e: e}
+		}
+		for i := range ask {
+			ask[i] = mtHostile
+		}
+	}
 }
 
 func (e *env) authenticate(user, pass string) (interface{}, error) {
@@ -627,6 +665,9 @@ func (e *env) serve(c *Case) *obs {
 			panic("unknown entry point " + c.Via)
 		}
 	}()
+	if e.cfg.Hostile != "" {
+		e.hostile()
+	}
 	return o
 }
 
@@ -658,6 +699,14 @@ func (e *env) serveTyped(ctx *middleware.Context, unrouted http.Handler, w http.
 		*r = *rCtx
 	}
 	produces := typedProduces(c.Produces, e.mode.defaultType)
+	if e.cfg.Hostile != "" {
+		// the produces argument is the caller's slice: it re-uses it once Respond has returned
+		defer func() {
+			for i := range produces {
+				produces[i] = mtHostile
+			}
+		}()
+	}
 	if route.HasAuth() {
 		_, aCtx, err := ctx.Authorize(r, route)
 		if err != nil {
@@ -700,7 +749,16 @@ func (e *env) serveDirect(w http.ResponseWriter, r *http.Request, c *Case) {
 	if herr != nil {
 		data = herr
 	}
-	e.ctx.Respond(w, r, c.Produces, route, data)
+	produces := c.Produces
+	if e.cfg.Hostile != "" {
+		produces = append([]string(nil), c.Produces...)
+		defer func() {
+			for i := range produces {
+				produces[i] = mtHostile
+			}
+		}()
+	}
+	e.ctx.Respond(w, r, produces, route, data)
 }
 
 // routableDouble is a RoutableAPI written by hand, as generated servers have one: the
